@@ -375,10 +375,15 @@ class Victim:
                 self.violations.append({
                     "signature": "wire-close:missing", "witness": None,
                     "what": "layer closed with 0x%x but no CONNECTION_CLOSE frame was emitted in 20 transport steps" % code})
-        elif found["name"] != "CONNECTION_CLOSE_APP" or found["error_code"] not in H3_CODES:
+        elif found["name"] != "CONNECTION_CLOSE_APP":
             self.violations.append({
-                "signature": "wire-close:not-an-http3-code:%s:0x%x" % (found["name"], found["error_code"]), "witness": None,
-                "what": "close frame on the wire is %s code 0x%x (layer passed 0x%x)" % (found["name"], found["error_code"], code)})
+                "signature": "wire-close:transport-close-frame", "witness": None,
+                "what": "close frame on the wire is a transport CONNECTION_CLOSE (0x1c) code 0x%x, not an application close "
+                        "(layer passed 0x%x)" % (found["error_code"], code)})
+        elif found["error_code"] not in H3_CODES:
+            self.violations.append({
+                "signature": "wire-close:not-an-http3-code", "witness": None,
+                "what": "application close on the wire carries code 0x%x (layer passed 0x%x)" % (found["error_code"], code)})
         return "closed(0x%x)" % code
 
 
